@@ -1,5 +1,6 @@
-import Revm.Proofs.InterpCall
-/-! Proofs for C25, part 7: `execInstr` and `step` as a whole, re-entry of a child result, and the loop. -/
+import Revm.Proofs.InterpLoop
+/-! Proofs for C25, part 8: legacy code — `execInstr` and `step` as a whole, the invariant of instruction
+boundaries, and the instantiation of the generic loop theorems. -/
 set_option linter.unusedSimpArgs false
 set_option linter.unusedVariables false
 namespace Revm.Proofs.Interp
@@ -7,34 +8,46 @@ open Revm Revm.Model Revm.Model.Interp
 open Revm.Proofs.Memory (WF)
 
 theorem execInstr_good {s0 : IState} (hs : Start s0) (i : Instr) : Good s0 (execInstr i s0) := by
+  have hb := hs.toBase
+  have hN : ∀ s', Done1 s0 s' → Next s0 s' := fun _ h => Done1.next hs h
+  have hA : ∀ a s', ActRel s0 a s' → ActOk s0 a s' := fun _ _ h => ActRel.ok hs h
   unfold execInstr
   cases hp : execPure i with
   | some m => exact .pure (toDone_next (execPure_sat hs i m hp))
   | none =>
     cases i with
-    | keccak256 => exact keccak256I_good hs
-    | balance => exact balanceI_good hs
-    | selfbalance => exact selfbalanceI_good hs
-    | extcodesize => exact extcodesizeI_good hs
-    | extcodehash => exact extcodehashI_good hs
-    | extcodecopy => exact extcodecopyI_good hs
-    | blockhash => exact blockhashI_good hs
-    | sload => exact sloadI_good hs
-    | sstore => exact sstoreI_good hs
-    | tload => exact tloadI_good hs
-    | tstore => exact tstoreI_good hs
-    | log n => exact logI_good hs n.val
-    | selfdestruct => exact selfdestructI_good hs
-    | create c2 => exact .pure (toDoneAction_good hs (createI_sat hs c2))
-    | call => exact callI_good hs
-    | callcode => exact callcodeI_good hs
-    | delegatecall => exact delegatecallI_good hs
-    | staticcall => exact staticcallI_good hs
+    | keccak256 => exact keccak256I_good hb hN
+    | balance => exact balanceI_good hb hN
+    | selfbalance => exact selfbalanceI_good hb hN
+    | extcodesize => exact extcodesizeI_good hb hN
+    | extcodehash => exact extcodehashI_good hb hN
+    | extcodecopy => exact extcodecopyI_good hb hN
+    | blockhash => exact blockhashI_good hb hN
+    | sload => exact sloadI_good hb hN
+    | sstore => exact sstoreI_good hb hN
+    | tload => exact tloadI_good hb hN
+    | tstore => exact tstoreI_good hb hN
+    | log n => exact logI_good hb hN n.val
+    | selfdestruct => exact selfdestructI_good hb hN
+    | create c2 => exact .pure (toDoneAction_good hs (createI_sat hb c2))
+    | call => exact callI_good hb hA
+    | callcode => exact callcodeI_good hb hA
+    | delegatecall => exact delegatecallI_good hb hA
+    | staticcall => exact staticcallI_good hb hA
+    | eofcreate =>
+      exact hostCallAction_good hA _ _ (fun _ _ => False)
+        (by unfold eofcreatePre; exact eofGuard_sat hs _) (fun _ _ _ hf => hf.elim)
+    | extcall =>
+      exact hostCallOptAction_good hN hA _ _ (fun _ _ => False) (eofGuard_sat hs _) (fun _ _ _ hf => hf.elim)
+    | extdelegatecall =>
+      exact hostCallOptAction_good hN hA _ _ (fun _ _ => False) (eofGuard_sat hs _) (fun _ _ _ hf => hf.elim)
+    | extstaticcall =>
+      exact hostCallOptAction_good hN hA _ _ (fun _ _ => False) (eofGuard_sat hs _) (fun _ _ _ hf => hf.elim)
     | _ => simp [execPure] at hp
 
 /-! ## the invariant at instruction boundaries -/
 
-/-- what holds of every state `run` reaches between two instructions -/
+/-- what holds of every state `run` reaches between two instructions of legacy code -/
 structure Inv (s : IState) : Prop where
   codeLen : s.code.length = s.origLen + 33
   pad : ∀ i, s.origLen ≤ i → i < s.code.length → s.code[i]? = some 0
@@ -53,326 +66,101 @@ structure Inv (s : IState) : Prop where
   meas : measure s ≤ U64 - 1
   safe : measure s < U64 - 1 ∨ s.stack = []
 
-/-- `Inv` survives whatever a handler does (`Core`), as long as the instruction pointer stays in the code -/
-theorem Inv.ofCore {s s1 s' : IState} {k : Nat} {st ne : Bool} {L : Nat} (hi : Inv s)
-    (e1 : s1.code = s.code) (e2 : s1.origLen = s.origLen) (e3 : s1.jumpTable = s.jumpTable)
-    (e4 : s1.isEof = s.isEof) (e5 : s1.isEofInit = s.isEofInit) (e6 : s1.spec = s.spec) (e7 : s1.env = s.env)
-    (hc : Core k st ne L s1 s') (hpc : s'.pc < s'.code.length) : Inv s' where
-  codeLen := by rw [hc.code, hc.origLen, e1, e2]; exact hi.codeLen
-  pad := by rw [hc.code, hc.origLen, e1, e2]; exact hi.pad
-  jt := by rw [hc.jt, hc.origLen, e3, e2]; exact hi.jt
-  legacy := by rw [hc.isEof, e4]; exact hi.legacy
-  notInit := by rw [hc.isEofInit, e5]; exact hi.notInit
-  envOk := by rw [hc.spec, hc.env, e6, e7]; exact hi.envOk
-  origLe := by rw [hc.origLen, e2]; exact hi.origLe
-  pc := hpc
-  stack := hc.stack
-  memWF := hc.memWF
-  memCk := hc.memCk
-  rdLen := hc.rdLen
-  inLen := hc.inLen
-  meas := by have := hc.meas; have := hc.m0; omega
-  safe := hc.safe
+theorem Inv.base {s : IState} (h : Inv s) : Base s :=
+  { envOk := h.envOk, stack := h.stack, memWF := h.memWF, memCk := h.memCk, rdLen := h.rdLen, inLen := h.inLen,
+    meas := h.meas, safe := h.safe }
 
-/-- the running relation of a state with itself -/
-theorem Inv.rel {s : IState} (h : Inv s) (st : Bool) (hst : st = true → measure s < U64 - 1) :
-    Rel 0 st false (clen s.mem) s s :=
-  { code := rfl, origLen := rfl, jt := rfl, isEof := rfl, isEofInit := rfl, spec := rfl, env := rfl, input := rfl,
-    ck := rfl, cks := rfl, stack := h.stack, memWF := h.memWF, memCk := h.memCk, memL := Nat.le_refl _, grow := Nat.le_refl _,
-    rdLen := h.rdLen, inLen := h.inLen, m0 := h.meas, meas := Nat.le_of_eq (Nat.add_zero _),
-    strict := hst, safe := h.safe, nonempty := fun e => (by cases e), pc := rfl }
+/-- `Inv` only looks at the static part of the state beyond `Base` -/
+theorem Inv.transfer {s x : IState} (h : Inv s) (hs : SameStatic s x) (hb : Base x) : Inv x :=
+  { codeLen := by rw [hs.code, hs.origLen]; exact h.codeLen
+    pad := by rw [hs.code, hs.origLen]; exact h.pad
+    jt := by rw [hs.jt, hs.origLen]; exact h.jt
+    legacy := by rw [hs.isEof]; exact h.legacy
+    notInit := by rw [hs.isEofInit]; exact h.notInit
+    envOk := hb.envOk
+    origLe := by rw [hs.origLen]; exact h.origLe
+    pc := by rw [hs.pc, hs.code]; exact h.pc
+    stack := hb.stack, memWF := hb.memWF, memCk := hb.memCk, rdLen := hb.rdLen, inLen := hb.inLen
+    meas := hb.meas, safe := hb.safe }
 
-theorem Inv.ofRel {s s' : IState} {k : Nat} {st ne : Bool} {L : Nat} (hi : Inv s) (hr : Rel k st ne L s s') :
-    Inv s' :=
-  hi.ofCore (s1 := s) rfl rfl rfl rfl rfl rfl rfl hr.toCore (by rw [hr.pc, hr.code]; exact hi.pc)
+/-- the legacy invariant together with "the code is still `c`" (what `pc_in_bounds` is stated about) -/
+def InvC (c : List Nat) (n : Nat) (s : IState) : Prop := Inv s ∧ s.code = c ∧ s.origLen = n
+
+theorem invC_loop (c : List Nat) (n : Nat) : LoopInv (InvC c n) :=
+  ⟨fun _ h => h.1.base,
+   fun s x h hs hb => ⟨h.1.transfer hs hb, hs.code.trans h.2.1, hs.origLen.trans h.2.2⟩⟩
 
 /-! ## one instruction -/
 
-/-- the outcome of one resolved instruction, relative to the state before it -/
-inductive StepOk (s : IState) : Done → Prop
-  | next {s' : IState} (hi : Inv s') (hm : measure s' + 1 ≤ measure s)
-      (hc : s'.code = s.code ∧ s'.origLen = s.origLen) : StepOk s (.next s')
-  | action {a : Action} {s' : IState} (hi : Inv s') (hm : measure s' + a.gasLimit + 1 ≤ measure s)
-      (hr : RetOk a (clen s'.mem)) (hc : s'.code = s.code ∧ s'.origLen = s.origLen) : StepOk s (.action a s')
-  | halt {r : IResult} {o : List Nat} {s' : IState} (hm : measure s' ≤ measure s) : StepOk s (.halt r o s')
-
-inductive StepGood (s : IState) : Outcome → Prop
-  | pure {d : Done} (h : StepOk s d) : StepGood s (.pure d)
-  | host {op : HostOp} {k : HostResp → Done} (h : ∀ r, RespOk r → StepOk s (k r)) : StepGood s (.host op k)
-
 theorem decode_zero : decode 0 = .stop := rfl
-
-theorem stepOk_of_doneGood {s : IState} (hi : Inv s) {d : Done}
-    (hd : DoneGood { s with pc := s.pc + 1 } d) : StepOk s d := by
-  have hmeq : measure { s with pc := s.pc + 1 } = measure s := rfl
-  cases hd with
-  | next hn =>
-    refine .next (hi.ofCore (s1 := { s with pc := s.pc + 1 }) rfl rfl rfl rfl rfl rfl rfl hn.core hn.pcOk) ?_
-      ⟨hn.core.code, hn.core.origLen⟩
-    have := hn.core.meas; rw [hmeq] at this; exact this
-  | action hn =>
-    refine .action (hi.ofCore (s1 := { s with pc := s.pc + 1 }) rfl rfl rfl rfl rfl rfl rfl hn.core hn.pcOk) ?_ hn.ret
-      ⟨hn.core.code, hn.core.origLen⟩
-    have := hn.gas; rw [hmeq] at this; exact this
-  | halt hn =>
-    have h2 := hn.meas
-    rw [hmeq, Nat.add_zero] at h2
-    exact .halt h2
 
 theorem step_eq {s : IState} (h : s.pc < s.code.length) :
     step s = execInstr (decode s.code[s.pc]) { s with pc := s.pc + 1 } := by
   unfold step
   rw [List.getElem?_eq_getElem h]
 
-theorem step_good {s : IState} (hi : Inv s) : StepGood s (step s) := by
-  have hpc := hi.pc
+theorem Inv.start {s : IState} (hi : Inv s) (hin : s.pc < s.origLen) : Start { s with pc := s.pc + 1 } :=
+  { codeLen := hi.codeLen, jt := hi.jt, legacy := hi.legacy, notInit := hi.notInit, envOk := hi.envOk,
+    origLe := hi.origLe, pc := hin, stack := hi.stack, memWF := hi.memWF, memCk := hi.memCk,
+    rdLen := hi.rdLen, inLen := hi.inLen, meas := hi.meas, safe := hi.safe }
+
+theorem stepOk_of_doneGood {c : List Nat} {n : Nat} {s : IState} (hi : InvC c n s) {d : Done}
+    (hd : DoneGood { s with pc := s.pc + 1 } d) : StepOkP (InvC c n) s d := by
+  have hmeq : measure { s with pc := s.pc + 1 } = measure s := rfl
+  have tr : ∀ {k : Nat} {st ne : Bool} {L : Nat} {s' : IState},
+      Core k st ne L { s with pc := s.pc + 1 } s' → s'.pc < s'.code.length → InvC c n s' := by
+    intro k st ne L s' hc hpc
+    have hb : Base s' := (hi.1.base : Base s).ofRes (s := s) (s' := s')
+      { hc.toRes with }
+    refine ⟨?_, hc.code.trans hi.2.1, hc.origLen.trans hi.2.2⟩
+    exact
+      { codeLen := by rw [hc.code, hc.origLen]; exact hi.1.codeLen
+        pad := by rw [hc.code, hc.origLen]; exact hi.1.pad
+        jt := by rw [hc.jt, hc.origLen]; exact hi.1.jt
+        legacy := by rw [hc.isEof]; exact hi.1.legacy
+        notInit := by rw [hc.isEofInit]; exact hi.1.notInit
+        envOk := hb.envOk
+        origLe := by rw [hc.origLen]; exact hi.1.origLe
+        pc := hpc
+        stack := hb.stack, memWF := hb.memWF, memCk := hb.memCk, rdLen := hb.rdLen, inLen := hb.inLen
+        meas := hb.meas, safe := hb.safe }
+  cases hd with
+  | next hn =>
+    refine .next (tr hn.core hn.pcOk) ?_
+    have := hn.core.meas; rw [hmeq] at this; exact this
+  | action hn =>
+    refine .action (tr hn.core hn.pcOk) ?_ hn.ret
+    have := hn.gas; rw [hmeq] at this; exact this
+  | halt hn =>
+    have h2 := hn.meas
+    rw [hmeq, Nat.add_zero] at h2
+    exact .halt h2
+
+/-- one instruction of legacy code: never a fault, the invariant is kept, at least 1 gas is consumed when the frame
+continues (and the child's gas on top when an action goes out) -/
+theorem step_good (c : List Nat) (n : Nat) : StepInv (InvC c n) := by
+  intro s hi
+  have hpc := hi.1.pc
   rw [step_eq hpc]
   by_cases hin : s.pc < s.origLen
-  · -- an opcode of the code proper
-    have hs : Start { s with pc := s.pc + 1 } :=
-      { codeLen := hi.codeLen, jt := hi.jt, legacy := hi.legacy, notInit := hi.notInit, envOk := hi.envOk,
-        origLe := hi.origLe, pc := hin, stack := hi.stack, memWF := hi.memWF, memCk := hi.memCk,
-        rdLen := hi.rdLen, inLen := hi.inLen, meas := hi.meas, safe := hi.safe }
+  · have hs := hi.1.start hin
     have hg := execInstr_good hs (decode s.code[s.pc])
     generalize execInstr (decode s.code[s.pc]) { s with pc := s.pc + 1 } = o at hg ⊢
     cases hg with
     | pure hd => exact .pure (stepOk_of_doneGood hi hd)
     | host hk => exact .host (fun r hr => stepOk_of_doneGood hi (hk r hr))
-  · -- inside the padding: the byte is 0 = STOP
-    have h0 := hi.pad s.pc (by omega) hpc
+  · have h0 := hi.1.pad s.pc (by omega) hpc
     rw [List.getElem?_eq_getElem hpc] at h0
     injection h0 with h0
     rw [h0, decode_zero]
     exact .pure (.halt (Nat.le_refl _))
 
-/-! ## re-entry of a child result -/
+theorem run_safe (c : List Nat) (n : Nat) {η : Type} (o : Oracle η) (ho : OracleOk o) :
+    ∀ (fuel : Nat) (s : IState) (h : η), InvC c n s → RunSafe fuel s (run o fuel s h).1 :=
+  run_safeP (invC_loop c n) (step_good c n) o ho
 
-/-- what the frame machine hands back for an action: at most the gas it was given, never `FatalExternalError`
-(the EVM loop leaves through `take_error()?` before `insert_*_outcome` in that case), output a Rust `Bytes` -/
-structure ChildOk (a : Action) (c : ChildResult) : Prop where
-  gas : c.gasRemaining ≤ a.gasLimit
-  notFatal : c.result ≠ .FatalExternalError
-  outLen : c.output.length ≤ Memory.ISIZE_MAX
-
-/-- invariant, a bound on the measure, same code as `s` -/
-def Mid (B : Nat) (s x : IState) : Prop := Inv x ∧ measure x ≤ B ∧ x.code = s.code ∧ x.origLen = s.origLen
-
-theorem sat_conv {α} {e : Exec α} {H H' : IState → Prop} {Q Q' : α → IState → Prop}
-    (h : Exec.Sat e H Q) (hH : ∀ x, H x → H' x) (hQ : ∀ a x, Q a x → Q' a x) : Exec.Sat e H' Q' := by
-  cases h with
-  | ok h => exact .ok (hQ _ _ h)
-  | halt h => exact .halt (hH _ h)
-
-theorem modifyS_sat {H : IState → Prop} (f : IState → IState) (s : IState) :
-    Exec.Sat (modifyS f s) H (fun _ x => x = f s) := .ok rfl
-
-theorem mid_push {B : Nat} {s0 s : IState} (h : Mid B s0 s) (hB : B ≤ U64 - 2) (v : Nat) :
-    Exec.Sat (push v s) (fun x => measure x ≤ B) (fun _ x => Mid B s0 x) := by
-  have hU := U64_val
-  have hst : measure s < U64 - 1 := by have := h.2.1; omega
-  refine sat_conv (push_sat (h.1.rel true (fun _ => hst)) v) ?_ ?_
-  · intro x hx; have := hx.meas; have := h.2.1; omega
-  · intro _ x hx
-    exact ⟨h.1.ofRel hx, by have := hx.meas; have := h.2.1; omega, hx.code.trans h.2.2.1,
-      hx.origLen.trans h.2.2.2⟩
-
-theorem mid_memSet {B : Nat} {s0 s : IState} (h : Mid B s0 s) (off : Nat) (val : List Nat)
-    (hin : val = [] ∨ off + val.length ≤ clen s.mem) :
-    Exec.Sat (liftMemWrite (fun m => Memory.set m off val) s) (fun x => measure x ≤ B)
-      (fun _ x => Mid B s0 x) := by
-  refine sat_conv (memSet_sat (h.1.rel false (fun e => by cases e)) off val hin) ?_ ?_
-  · intro x hx; have := hx.meas; have := h.2.1; omega
-  · intro _ x hx
-    exact ⟨h.1.ofRel hx, by have := hx.meas; have := h.2.1; omega, hx.code.trans h.2.2.1,
-      hx.origLen.trans h.2.2.2⟩
-
-/-- giving gas back: `erase_cost(returned)` (+ `record_refund`) keeps the invariant while the total stays below
-`u64::MAX` -/
-theorem Inv.gasBack {s : IState} (hi : Inv s) (g' : Gas.Gas) (ret : Nat)
-    (hg : g'.remaining = U64ops.wadd s.gas.remaining ret) (hm : measure s + ret ≤ U64 - 2) :
-    Inv { s with gas := g' } ∧ measure { s with gas := g' } = measure s + ret := by
-  have hU := U64_val
-  have hms : measure s = s.gas.remaining + mcost s := rfl
-  have hmeq : measure { s with gas := g' } = g'.remaining + mcost s := rfl
-  have hw : U64ops.wadd s.gas.remaining ret = s.gas.remaining + ret :=
-    Proofs.Gas.wadd_of_lt _ _ (by omega)
-  have hm' : measure { s with gas := g' } = measure s + ret := by rw [hmeq, hg, hw, hms]; omega
-  refine ⟨?_, hm'⟩
-  exact
-    { codeLen := hi.codeLen, pad := hi.pad, jt := hi.jt, legacy := hi.legacy, notInit := hi.notInit,
-      envOk := hi.envOk, origLe := hi.origLe, pc := hi.pc, stack := hi.stack, memWF := hi.memWF,
-      memCk := hi.memCk, rdLen := hi.rdLen, inLen := hi.inLen,
-      meas := by rw [hm']; omega
-      safe := Or.inl (by rw [hm']; omega) }
-
-theorem Inv.setReturnData {s : IState} (hi : Inv s) (rd : List Nat) (h : rd.length ≤ Memory.ISIZE_MAX) :
-    Inv { s with returnData := rd } :=
-  { codeLen := hi.codeLen, pad := hi.pad, jt := hi.jt, legacy := hi.legacy, notInit := hi.notInit,
-    envOk := hi.envOk, origLe := hi.origLe, pc := hi.pc, stack := hi.stack, memWF := hi.memWF,
-    memCk := hi.memCk, rdLen := h, inLen := hi.inLen, meas := hi.meas, safe := hi.safe }
-
-theorem insertCall_sat {s : IState} {B gl : Nat} (hi : Inv s) (hB1 : measure s + gl ≤ B) (hB2 : B ≤ U64 - 2)
-    (retStart retEnd : Nat) (c : ChildResult)
-    (hret : retEnd - retStart = 0 ∨ (retStart ≤ retEnd ∧ retEnd ≤ clen s.mem))
-    (hg : c.gasRemaining ≤ gl) (hnf : c.result ≠ .FatalExternalError)
-    (hol : c.output.length ≤ Memory.ISIZE_MAX) :
-    Exec.Sat (insertCallOutcome retStart retEnd c s) (fun x => measure x ≤ B) (fun _ x => Mid B s x) := by
-  unfold insertCallOutcome
-  refine sat_bind (modifyS_sat _ s) ?_
-  rintro _ s1 rfl
-  have hi1 := hi.setReturnData c.output hol
-  have hm1 : measure { s with returnData := c.output } = measure s := rfl
-  have hval : (c.output.take (min (retEnd - retStart) c.output.length)) = []
-      ∨ retStart + (c.output.take (min (retEnd - retStart) c.output.length)).length ≤ clen s.mem := by
-    rcases hret with h0 | ⟨h1, h2⟩
-    · left; rw [h0]; simp
-    · right; simp only [List.length_take]; omega
-  refine sat_bind (m := getS) (Q := fun a x => { s with returnData := c.output } = a ∧ { s with returnData := c.output } = x) (.ok ⟨rfl, rfl⟩) ?_
-  rintro _ _ ⟨rfl, rfl⟩
-  dsimp only []
-  by_cases hok : c.result.isOk = true
-  · -- return_ok!
-    rw [if_pos hok]
-    refine sat_bind (modifyS_sat _ _) ?_
-    rintro _ s2 rfl
-    obtain ⟨hi2, hm2⟩ := hi1.gasBack
-      (Gas.recordRefund (Gas.eraseCost s.gas c.gasRemaining) c.gasRefunded) c.gasRemaining rfl
-      (by rw [hm1]; omega)
-    have hmid : Mid B s _ := ⟨hi2, by rw [hm2, hm1]; omega, rfl, rfl⟩
-    refine sat_bind (mid_memSet hmid retStart _ hval) ?_
-    intro _ s3 h3
-    exact mid_push h3 hB2 _
-  · rw [if_neg hok]
-    by_cases hrev : c.result.isRevert = true
-    · -- return_revert!
-      rw [if_pos hrev]
-      refine sat_bind (modifyS_sat _ _) ?_
-      rintro _ s2 rfl
-      obtain ⟨hi2, hm2⟩ := hi1.gasBack (Gas.eraseCost s.gas c.gasRemaining) c.gasRemaining rfl
-        (by rw [hm1]; omega)
-      have hmid : Mid B s _ := ⟨hi2, by rw [hm2, hm1]; omega, rfl, rfl⟩
-      refine sat_bind (mid_memSet hmid retStart _ hval) ?_
-      intro _ s3 h3
-      exact mid_push h3 hB2 _
-    · rw [if_neg hrev, if_neg hnf]
-      exact mid_push (s0 := s) ⟨hi1, by rw [hm1]; omega, rfl, rfl⟩ hB2 _
-
-theorem insertCreate_sat {s : IState} {B gl : Nat} (hi : Inv s) (hB1 : measure s + gl ≤ B) (hB2 : B ≤ U64 - 2)
-    (c : ChildResult) (hg : c.gasRemaining ≤ gl) (hnf : c.result ≠ .FatalExternalError)
-    (hol : c.output.length ≤ Memory.ISIZE_MAX) :
-    Exec.Sat (insertCreateOutcome c s) (fun x => measure x ≤ B) (fun _ x => Mid B s x) := by
-  unfold insertCreateOutcome
-  refine sat_bind (modifyS_sat _ s) ?_
-  rintro _ s1 rfl
-  have hi1 : Inv { s with returnData := if c.result.isRevert = true then c.output else [] } :=
-    hi.setReturnData _ (by split <;> simp [hol])
-  have hm1 : measure { s with returnData := if c.result.isRevert = true then c.output else [] } = measure s := rfl
-  have hmid1 : Mid (B - gl) s { s with returnData := if c.result.isRevert = true then c.output else [] } :=
-    ⟨hi1, by rw [hm1]; omega, rfl, rfl⟩
-  by_cases hok : c.result.isOk = true
-  · rw [if_pos hok]
-    refine sat_bind (sat_conv (mid_push hmid1 (by omega) _) (fun x hx => by omega) (fun _ _ hq => hq)) ?_
-    intro _ s2 h2
-    refine sat_conv (modifyS_sat (H := fun x => measure x ≤ B) _ s2) (fun _ hx => hx) ?_
-    rintro _ s3 rfl
-    obtain ⟨hi3, hm3⟩ := h2.1.gasBack
-      (Gas.recordRefund (Gas.eraseCost s2.gas c.gasRemaining) c.gasRefunded) c.gasRemaining rfl
-      (by have := h2.2.1; omega)
-    exact ⟨hi3, by rw [hm3]; have := h2.2.1; omega, h2.2.2.1, h2.2.2.2⟩
-  · rw [if_neg hok]
-    by_cases hrev : c.result.isRevert = true
-    · rw [if_pos hrev]
-      refine sat_bind (sat_conv (mid_push hmid1 (by omega) _) (fun x hx => by omega) (fun _ _ hq => hq)) ?_
-      intro _ s2 h2
-      refine sat_conv (modifyS_sat (H := fun x => measure x ≤ B) _ s2) (fun _ hx => hx) ?_
-      rintro _ s3 rfl
-      obtain ⟨hi3, hm3⟩ := h2.1.gasBack (Gas.eraseCost s2.gas c.gasRemaining) c.gasRemaining rfl
-        (by have := h2.2.1; omega)
-      exact ⟨hi3, by rw [hm3]; have := h2.2.1; omega, h2.2.2.1, h2.2.2.2⟩
-    · rw [if_neg hrev, if_neg hnf]
-      exact sat_conv (mid_push hmid1 (by omega) _) (fun x hx => by omega)
-        (fun _ x hq => ⟨hq.1, by have := hq.2.1; omega, hq.2.2.1, hq.2.2.2⟩)
-
-theorem insertOutcome_sat {s : IState} {B : Nat} (a : Action) (c : ChildResult) (hi : Inv s)
-    (hB1 : measure s + a.gasLimit ≤ B) (hB2 : B ≤ U64 - 2) (hret : RetOk a (clen s.mem)) (hc : ChildOk a c) :
-    Exec.Sat (insertOutcome a c s) (fun x => measure x ≤ B) (fun _ x => Mid B s x) := by
-  cases a with
-  | call i => exact insertCall_sat hi hB1 hB2 i.retStart i.retEnd c hret hc.gas hc.notFatal hc.outLen
-  | create i => exact insertCreate_sat hi hB1 hB2 c hc.gas hc.notFatal hc.outLen
-
-/-! ## the loop -/
-
-/-- the oracle answers like Rust values and like a frame machine -/
-structure OracleOk {η : Type} (o : Oracle η) : Prop where
-  host : ∀ h op, RespOk (o.host h op).1
-  child : ∀ h a, ChildOk a (o.child h a).1
-
-/-- a finished run: a defined result, within the gas the frame had -/
-def RunOk (s : IState) : RunResult → Prop
-  | .done _ _ s' => measure s' ≤ measure s
-  | .fault _ => False
-  | .outOfFuel => False
-
-theorem continueWith_ok {η : Type} (o : Oracle η) (ho : OracleOk o) (n : Nat) (s : IState) (d : Done) (h : η)
-    (hd : StepOk s d) (hfuel : measure s < n + 1) (hs : measure s ≤ U64 - 1)
-    (ih : ∀ (s' : IState) (h' : η), Inv s' → measure s' < n → RunOk s' (run o n s' h').1) :
-    RunOk s (continueWith o (run o n) d h).1 := by
-  cases hd with
-  | next hi hm _ =>
-    have := ih _ h hi (by omega)
-    show RunOk s (run o n _ h).1
-    revert this
-    cases (run o n _ h).1 with
-    | done r out s'' => intro this; show measure s'' ≤ measure s; have : measure s'' ≤ _ := this; omega
-    | fault f => intro this; exact this
-    | outOfFuel => intro this; exact this
-  | @action a s' hi hm hr _ =>
-    have hc := ho.child h a
-    have hins := insertOutcome_sat (B := measure s - 1) a (o.child h a).1 hi (by omega) (by omega) hr hc
-    show RunOk s (match insertOutcome a (o.child h a).1 s' with
-      | .ok _ s'' => run o n s'' (o.child h a).2
-      | .halt r out s'' => (RunResult.done r out s'', (o.child h a).2)
-      | .fault f => (RunResult.fault f, (o.child h a).2)).1
-    cases hx : insertOutcome a (o.child h a).1 s' with
-    | ok u s'' =>
-      rw [hx] at hins
-      have hmid := sat_ok_inv hins
-      have := ih s'' (o.child h a).2 hmid.1 (by have := hmid.2.1; omega)
-      show RunOk s (run o n s'' (o.child h a).2).1
-      revert this
-      cases (run o n s'' (o.child h a).2).1 with
-      | done r out s3 =>
-        intro this; show measure s3 ≤ measure s
-        have h1 : measure s3 ≤ measure s'' := this
-        have := hmid.2.1; omega
-      | fault f => intro this; exact this
-      | outOfFuel => intro this; exact this
-    | halt r out s'' =>
-      rw [hx] at hins
-      have := sat_halt_inv hins
-      show measure s'' ≤ measure s
-      omega
-    | fault f => rw [hx] at hins; exact (sat_fault_inv hins).elim
-  | halt hm => exact hm
-
-/-- `no_panic_legacy`, `run_terminates`, "within the gas limit": with `measure + 1` instructions of fuel the loop
-ends with a defined result, never a fault, never out of fuel, and the final state's gas (plus paid-for memory) is
-at most what the frame started with -/
-theorem run_ok {η : Type} (o : Oracle η) (ho : OracleOk o) :
-    ∀ (fuel : Nat) (s : IState) (h : η), Inv s → measure s < fuel → RunOk s (run o fuel s h).1 := by
-  intro fuel
-  induction fuel with
-  | zero => intro s h _ hf; omega
-  | succ n ih =>
-    intro s h hi hf
-    have hg := step_good hi
-    show RunOk s (match step s with
-      | .pure d => continueWith o (run o n) d h
-      | .host op k => continueWith o (run o n) (k (o.host h op).1) (o.host h op).2).1
-    generalize step s = st at hg
-    cases hg with
-    | pure hd => exact continueWith_ok o ho n s _ h hd hf hi.meas ih
-    | host hk =>
-      exact continueWith_ok o ho n s _ _ (hk _ (ho.host h _)) hf hi.meas ih
+theorem reach_inv (c : List Nat) (n : Nat) {η : Type} (o : Oracle η) (ho : OracleOk o) {s0 : IState} {h0 : η}
+    (hi0 : InvC c n s0) {s : IState} {h : η} (hr : Reach o s0 h0 s h) : InvC c n s ∧ measure s ≤ measure s0 :=
+  reach_invP (invC_loop c n) (step_good c n) o ho hi0 hr
 
 end Revm.Proofs.Interp
